@@ -1236,4 +1236,4 @@ class SymMixin:
         if name in ("readline", "readlines", "read1", "peek", "readinto", "getbuffer", "writelines", "truncate",
                     "fileno", "readable", "writable", "seekable", "drain", "write_eof", "detach"):
             return Sym(("stream-" + name, s.uid, len(run.effects)), "any")
-        self.throw("AttributeError", f"stream has no attribute {name}", node)
+        self.limit(f"stream method {name!r} is not modelled", node)
